@@ -204,6 +204,7 @@ NB == Len(Bases)
 \* TLC evaluates these once
 BaseToks  == [b \in 1 .. NB |-> Lex(Bases[b].B, Bases[b].deco)]
 BasePaths == [b \in 1 .. NB |-> Paths(Bases[b].B)]
+BaseAst   == [b \in 1 .. NB |-> Ast(Bases[b].B, Bases[b].deco)]
 
 WsSeq == <<" ", "\n", "\n\n", "\t", "\r\n", " \n    ", "\n\t", "  ">>
 WsAll == <<"">> \o WsSeq
@@ -268,26 +269,30 @@ ASSUME \A b \in 1 .. NB : /\ WFDeco(Bases[b].B, Bases[b].deco)
                                Bases[b].B.defs[d].k = "service" => \A i \in 1 .. Len(Bases[b].B.defs[d].items) :
                                   Bases[b].B.defs[d].items[i].k = "fn" => WFFn(Bases[b].B.defs[d].items[i])
 
-Inv_WF ==
-  LET B == Bases[st.b].B
-      deco == DecoOf(st)
-      toks == Lex(B, deco) IN
-  /\ WFDeco(B, deco)
-  /\ WFLayout(toks, LayoutOf(st, toks))
+\* kinds whose decoration is the base's own: tokens and AST are those of the base (evaluated once)
+OwnDeco(d) == d.kind \in {"pre1", "pre2", "rand"}
+ToksOf(d) == IF OwnDeco(d) THEN Lex(Bases[d.b].B, DecoOf(d)) ELSE BaseToks[d.b]
+AstOf(d)  == IF OwnDeco(d) THEN Ast(Bases[d.b].B, DecoOf(d)) ELSE BaseAst[d.b]
 
-\* stripping the layout of any rendering gives the tokens of the compact rendering
-Inv_Strip ==
-  LET B == Bases[st.b].B
-      toks == Lex(B, DecoOf(st)) IN
-  /\ StripWs(Render(toks, LayoutOf(st, toks))) = TokStrings(toks)
-  /\ StripWs(Render(toks, LayoutOf(st, toks))) = StripWs(Render(toks, Compact(toks)))
+\* the layout is one the grammar admits; stripping the layout entries of the rendering gives the
+\* lexical tokens, i.e. the tokens of the compact rendering
+Inv_Layout ==
+  LET toks == ToksOf(st)
+      ws == LayoutOf(st, toks)
+      r == Render(toks, ws) IN
+  /\ WFLayout(toks, ws)
+  /\ StripWs(r) = TokStrings(toks)
+  /\ StripWs(r) = StripWs(Render(toks, Compact(toks)))
 
-\* the ideal formatter preserves the AST, yields a well-formed schema, and is idempotent
+\* the decoration is one the grammar admits; the ideal formatter preserves the AST, yields a
+\* well-formed schema, and is idempotent (checked once per distinct decoration)
 Inv_Norm ==
+  (st.kind \in {"pre1", "rand"} \/ (st.kind = "base" /\ st.i = 1)) =>
   LET B == Bases[st.b].B
       deco == DecoOf(st)
       B2 == NormB(B, deco)
       d2 == NormDeco(B, deco) IN
+  /\ WFDeco(B, deco)
   /\ Ast(B2, d2) = Ast(B, deco)
   /\ WFDeco(B2, d2)
   /\ NormB(B2, d2) = B2
@@ -295,7 +300,7 @@ Inv_Norm ==
 
 \* Render is injective on Ast modulo layout: over all decorations of one base, two schemas have the
 \* same AST iff their normal forms have the same tokens (checked once per base, at its first state)
-DecoDescs(b) == {d \in Descs(b) : ValidDesc(d) /\ d.kind \in {"pre1", "rand"}} \cup {Desc(b, "base", 1, 0)}
+DecoDescs(b) == {d \in Descs(b) : ValidDesc(d) /\ d.kind = "pre1"} \cup {Desc(b, "base", 1, 0)}
 Inv_Inj ==
   (st.kind = "base" /\ st.i = 1) =>
      LET B == Bases[st.b].B
@@ -310,10 +315,9 @@ JoinStr(s, i, acc) == IF i > Len(s) THEN acc ELSE JoinStr(s, i + 1, acc \o s[i])
 
 Vector(d) ==
   LET base == Bases[d.b]
-      deco == DecoOf(d)
-      toks == Lex(base.B, deco) IN
+      toks == ToksOf(d) IN
   [id |-> base.B.name \o "/" \o d.kind \o "/" \o ToString(d.i) \o "/" \o ToString(d.j), name |-> base.B.name, kind |-> d.kind,
-   text |-> JoinStr(Render(toks, LayoutOf(d, toks)), 1, ""), ntok |-> Len(toks), ast |-> Ast(base.B, deco), deps |-> base.deps]
+   text |-> JoinStr(Render(toks, LayoutOf(d, toks)), 1, ""), ntok |-> Len(toks), ast |-> AstOf(d), deps |-> base.deps]
 
 Emit == IF TLCGet("stats").distinct > 0 /\ "VECTORS" \in DOMAIN IOEnv /\ IOEnv.VECTORS # ""
         THEN LET s == SetToSeq(AllDescs)
